@@ -61,5 +61,9 @@ pub fn laws(a: u32, b: u32) -> String {
     if (tb > ta) != ahead(a, b) || (ta > tb) != ahead(b, a) { bad.push("later"); }
     if (ta > b) != (ta > tb) || (a > tb) != (ta > tb) || (ta < b) != (ta < tb) || (a < tb) != (ta < tb)
         || (ta == b) != (ta == tb) || (a == tb) != (ta == tb) { bad.push("u32"); }
+    // the total order (`Ord::cmp`, hence `max`, `min`, sorting) is the same order as the operators'
+    let c = ta.cmp(&tb);
+    if ta.partial_cmp(&tb) != Some(c) || (c == Ordering::Less) != (ta < tb) || (c == Ordering::Greater) != (ta > tb)
+        || (std::cmp::max(ta, tb) == tb) != (c != Ordering::Greater) || (std::cmp::min(ta, tb) == ta) != (c != Ordering::Greater) { bad.push("total_order"); }
     if bad.is_empty() { "! ok".into() } else { format!("! FAIL {} {} {}", bad.join(","), a, b) }
 }
